@@ -211,6 +211,7 @@ def run(prog, chk):
         "every public compile function builds its own compiler; no module global is assigned and no module-/class-level container is mutated at call time (R08.4)",
         "history dependence through mutation of the sources: every write to the caller's sources found by the C07 ownership analysis is a C08 violation too (R08.5)",
         "glyph copies only use the UFO glyph protocol (library-agnostic) (R08.6)",
+        "feature writer objects keep no per-font state outside the per-call self.context; memoising decorators only on reviewed per-compile classes (R08.7)",
     ]
     chk.not_decided += ["byte identity itself", "behavioural differences between defcon and ufoLib2", "ordering of dict-typed UFO containers (treated as content)"]
     chk.assumptions += ["glyph-class literals and sets handed to fontTools as sets are order-neutral sinks (coverage / class tables are sorted by glyph id)",
@@ -221,6 +222,7 @@ def run(prog, chk):
     r084(prog, chk)
     r085(prog, chk)
     r086(prog, chk)
+    r087(prog, chk)
 
 
 # ----------------------------------------------------------------------------- R08.1
@@ -680,7 +682,90 @@ def r086(prog, chk):
     chk.minimum("R08.6", 2)
 
 
+# ----------------------------------------------------------------------------- R08.7
+MEMO_DECORATORS = {"cached_property", "lru_cache", "cache"}
+REVIEWED_MEMO = {
+    "Instantiator.glyph_factory": "the Instantiator is built per compile from the designspace; the factory only depends on the glyph class of its sources",
+    "InterpolatedLayer.normalized_location": "InterpolatedLayer objects are created per Instantiator (per compile); location is a constructor field",
+}
+BASE_WRITER = "ufo2ft.featureWriters.baseFeatureWriter.BaseFeatureWriter"
+
+
+def r087(prog, chk):
+    """Objects a caller can hand in as instances and reuse (feature writers) keep
+    no per-font state outside self.context, which setContext replaces on every
+    call; memoising decorators only on reviewed per-compile classes."""
+    ix = prog.ix
+    n = 0
+    for fi in ix.functions.values():
+        for d in getattr(fi.node, "decorator_list", []):
+            nm = A.callee_name(d) if isinstance(d, ast.Call) else (d.attr if isinstance(d, ast.Attribute) else getattr(d, "id", ""))
+            if nm in MEMO_DECORATORS:
+                n += 1
+                ok = fi.short in REVIEWED_MEMO
+                if ok:
+                    chk.exempt("R08.7", f"{fi.short}|@{nm}", REVIEWED_MEMO[fi.short])
+                chk.ob("R08.7", f"{fi.short}|@{nm}", ok, where(fi), detail=REVIEWED_MEMO.get(fi.short, ""), nontrivial=False,
+                       message=f"{fi.short} memoises its result on the object / in the process (@{nm}): the value computed for the first font is served to every "
+                               f"later compile that reuses the object (not on the reviewed list of per-compile classes)")
+    for ci in ix.subclasses(BASE_WRITER):
+        for m in ci.methods.values():
+            for node in A.body_nodes(m.node):
+                tgts = []
+                if isinstance(node, ast.Assign):
+                    tgts = node.targets
+                elif isinstance(node, ast.AugAssign) or (isinstance(node, ast.AnnAssign) and node.value is not None):
+                    tgts = [node.target]
+                for t in tgts:
+                    for e in (t.elts if isinstance(t, (ast.Tuple, ast.List)) else [t]):
+                        root = e
+                        chain = []
+                        while isinstance(root, (ast.Attribute, ast.Subscript)):
+                            if isinstance(root, ast.Attribute):
+                                chain.append(root.attr)
+                            root = root.value
+                        if not (isinstance(root, ast.Name) and root.id == "self" and chain):
+                            continue
+                        first = chain[-1]
+                        n += 1
+                        ok = m.node.name == "__init__" or first == "context"
+                        chk.ob("R08.7", f"{m.short}|{A.keytext(m.node, node)}", ok, where(m, node), detail=f"self.{first} {'set in __init__' if m.node.name == '__init__' else 'is the per-call context'}",
+                               message=f"{m.short} stores per-call data on the writer object itself (`{T(node, 60)}`): a writer instance reused for another font "
+                                       f"(featureWriters=[Writer()]) starts from the previous font's state")
+                if isinstance(node, ast.Call) and isinstance(node.func, ast.Attribute) and node.func.attr in MUT:
+                    root = node.func.value
+                    chain = []
+                    while isinstance(root, (ast.Attribute, ast.Subscript)):
+                        if isinstance(root, ast.Attribute):
+                            chain.append(root.attr)
+                        root = root.value
+                    if isinstance(root, ast.Name) and root.id == "self" and chain and chain[-1] != "context" and m.node.name != "__init__":
+                        n += 1
+                        chk.ob("R08.7", f"{m.short}|{A.keytext(m.node, node)}", False, where(m, node),
+                               message=f"{m.short} mutates `{T(node.func.value)}` on the writer object (not the per-call context): state leaks into the next compile that reuses the writer")
+        # the context is a fresh namespace on every call
+    sc = ix.get_method(BASE_WRITER, "setContext", own=True)
+    st = [(s_, v) for s_, t, v in attr_stores(sc, "context") if T(t.value) == "self"]
+    ok = len(st) == 1 and isinstance(st[0][1], ast.Call) and A.callee_name(st[0][1]) == "SimpleNamespace"
+    chk.ob("R08.7", f"{sc.short}|self.context = SimpleNamespace(...) on every call", ok, where(sc), detail="fresh per-call context",
+           message="BaseFeatureWriter.setContext no longer builds a fresh context namespace per call")
+    for ci in ix.subclasses(BASE_WRITER, strict=True):
+        m = ci.methods.get("setContext")
+        if m is None:
+            continue
+        sup = [c for c in A.body_nodes(m.node) if isinstance(c, ast.Call) and isinstance(c.func, ast.Attribute) and c.func.attr == "setContext" and "super()" in T(c.func.value)]
+        chk.ob("R08.7", f"{m.short}|chains to super().setContext", len(sup) == 1, where(m), detail="context created by the base class",
+               message=f"{m.short} does not obtain its context from BaseFeatureWriter.setContext")
+    chk.minimum("R08.7", 10)
+
+
 MUTANTS = [
+    M("spacing marks memoised on the writer (seeded C08a)", "ufo2ft/featureWriters/kernFeatureWriter.py", "KernFeatureWriter._filterSpacingMarks",
+      "<decorate>", "functools.cached_property", rule="R08.7"),
+    M("glyph scripts cached on the writer", "ufo2ft/featureWriters/kernFeatureWriter.py", "KernFeatureWriter._makeKerningLookups",
+      "marks = self.context.gdefClasses.mark", "marks = self.context.gdefClasses.mark\nself._marks = marks", rule="R08.7"),
+    M("feature list grows on the writer", "ufo2ft/featureWriters/baseFeatureWriter.py", "BaseFeatureWriter.shouldContinue",
+      "return True", "self.features.discard('none')\nreturn True", rule="R08.7"),
     M("colorGraph iterates the adjacency dict unsorted", "ufo2ft/featureWriters/markFeatureWriter.py", "colorGraph",
       "sorted(adjacency)", "adjacency", rule="R08.1"),
     M("cursive anchor pairs returned in set order", "ufo2ft/featureWriters/cursFeatureWriter.py", "CursFeatureWriter._getCursiveAnchorPairs",
